@@ -278,7 +278,7 @@ def run(ctx):
     # the fuzzy gain scheduler feeding the PID step: buffer discipline, weighted mean, guarded normaliser (shared with C13)
     from props import C13_fuzzy
     C13_fuzzy.run(ctx)
-    for r_ in ('F5a', 'F5b', 'F5c', 'F5d'):
+    for r_ in ('F5a', 'F5b', 'F5c', 'F5d', 'F5e'):
         rep.floor(r_, 1)
     rep.floor('D1', 13)
     rep.floor('D2', 1)
